@@ -1,8 +1,9 @@
 //@ unit fmt_membuf
 //@ props C12 C01
-//@ kind L
+//@ kind W
+//@ cbmc all --unwind 45 --unwinding-assertions
 //@ entry h_fmt_membuf
-//@ note L: loop-free (memcpy is cbmc's built-in model); symbolic capacity, fill level and block size, each <= 2^40 bytes (MAXSZ): "growth arithmetic does not wrap" is proved for that range only (at 2^63 (fIndex + extraNeeded) * 2 does wrap -- unreachable with real allocations)
+//@ note W: the functions are loop-free as they stand; an unwinding bound of 45 (more than log2 of the size range) is given so that a growth LOOP, should one be introduced, is still judged (memcpy is cbmc's built-in model); symbolic capacity, fill level and block size, each <= 2^40 bytes (MAXSZ): "growth arithmetic does not wrap" is proved for that range only (at 2^63 (fIndex + extraNeeded) * 2 does wrap -- unreachable with real allocations)
 //@ note MemoryManager::allocate / deallocate are harness stubs = malloc / free (ledger item 6: allocate returns a fresh block of the requested size; OutOfMemory not modelled)
 //@ note RI_membuf: fIndex <= fCapacity and fDataBuf points to the start of a heap block of exactly fCapacity + 4 bytes (what the constructor and ensureCapacity allocate)
 //@ note content preservation / append are stated for one harness-chosen ghost position G (universal statement without quantifier)
